@@ -196,12 +196,7 @@ def rule_Z(ctx):
                     ctx.violation('C16.Z', f, 'no division by a chord length that is zero on this path', {'division': unparse(e.node), 'path': pathtxt},
                                   node=e.node, key='divzero')
                 elif norm_like:
-                    g = any(cj.kind == 'cmp' and ((cj.op == '!=' and isinstance(cj.a, Rat) and isinstance(cj.b, Rat) and
-                                                   (w.rel.is_zero(cj.a - den) and w.rel.is_zero(cj.b) or w.rel.is_zero(cj.b - den) and w.rel.is_zero(cj.a))) or
-                                                  (cj.op == '<' and isinstance(cj.a, Rat) and isinstance(cj.b, Rat) and w.rel.is_zero(cj.b - den) and
-                                                   cj.a.isconst() and cj.a.constval() >= 0)) for cj in [c for c in conds if c.kind == 'cmp' and isinstance(c.a, Rat) and isinstance(c.b, Rat)]
-                            for _ in [0] if True and _guard_on(w, cj, den)) if False else \
-                        any(_guard_on(w, cj, den) for cj in conds)
+                    g = any(_guard_on(w, cj, den) for cj in conds)
                     ctx.check(g, 'C16.Z', f,
                               'a division by the chord length is dominated by a test that the length is not zero '
                               '(closed loops and coincident fixes give a zero-length chord)',
